@@ -128,6 +128,15 @@ func vHandPacket(r *rand.Rand) []byte {
 	if vChance(r, 0.1) {
 		hdr[1] = byte(vPick(r, 0, 8, 15, 16, 24, 255))
 	}
+	if vChance(r, 0.04) {
+		// a header length below the 16 fixed bytes, followed by enough well-formed TLV bytes for any reading of that length byte
+		// as a large number (one TLV of an unknown type, 30-32 words long)
+		hdr[1] = byte(vPick(r, 0, 8, 1, 12))
+		n := vPick(r, 30, 31, 32)
+		body := make([]byte, 8*n-2)
+		r.Read(body)
+		tlvs = vTLV(byte(vPick(r, 0x7f, 0x55, 0xee)), body)
+	}
 	pl := len(payload)
 	if vChance(r, 0.15) {
 		pl = vPick(r, 0, 1, len(payload)+1, 65535, len(payload)/2)
